@@ -287,6 +287,11 @@ def run(ck: Checker):
         res_calls = [n for n in walk_shallow_func(outer.node) if isinstance(n, ast.Call) and method_of(n)[1] == 'result']
         ok = len(pn) == len(cn) and bool(res_calls) and is_name(method_of(res_calls[0])[0], cn[1])
     ck.ob('C18-7', outer, cons_t[0] if cons_t else outer.node, ok, f'consumer unpacks {cn} in the producer\'s order {pn} and waits on the future component' if ok else 'consumer unpack does not agree with the producer tuple / does not wait on the future component')
+    # ------------------------------------------------------------------ C18-10
+    ck.rule('C18-10', 'connection / enqueue / response timeouts of the socket client and the poll timeout of read_record reach their uses as given: re-bound only under `is None`, never replaced through truthiness (GUARD)', minimum=4)
+    from .common import check_timeout_passthrough
+
+    check_timeout_passthrough(ck, 'C18-10', [f_ for f_ in mod.functions.values() if f_.qualname in ('read_record', 'open_tcp_connection', 'open_unix_connection', 'SocketClient.__init__', 'SocketClient._enqueue', 'SocketClient.request', 'SocketClient.stream')])
     # ------------------------------------------------------------------ C18-9
     ck.rule('C18-9', 'request ids stay unique while in flight: the client uses the address of the future as id, which is unique only as long as the in-flight table pins the future — the table entry is therefore removed only by the receiver when the response arrives (WHO)')
     cl = mod.cls('SocketClient')
